@@ -101,7 +101,7 @@ def build_set(folders, cuts, rng, names=None, per_part=None, files_hook=None, **
     """split the folders over len(cuts)+1 cabinets.  cuts: increasing list of (folder index, block index, byte offset in that block's payload):
     cabinet k ends inside that block after `offset` payload bytes (the block is split: first part has ulen 0).  Returns list of cabinet bytes."""
     for f in folders: f.prepare(rng)
-    ncab = len(cuts) + 1
+    ncab = len(cuts) + 1      # a cut is (folder, block, offset) = split inside that block, or (folder, "end", 0) = boundary after that folder
     names = names or [("part%d.cab" % (i + 1)).encode() for i in range(ncab)]
     # per cabinet: list of (folder idx, parts)
     cabs = [[] for _ in range(ncab)]
@@ -120,6 +120,8 @@ def build_set(folders, cuts, rng, names=None, per_part=None, files_hook=None, **
             else:
                 cur.append((payload, ulen))
         cabs[k].append((fi, cur)); span.setdefault(fi, []).append(k)
+        if cutq and cutq[0][0] == fi and cutq[0][1] == "end":     # cabinet boundary between two folders: nothing is split
+            cutq.pop(0); k += 1
     # byte ranges (in plaintext) of each folder part: blocks with ulen==0 contribute nothing; a split block's bytes count in the cabinet holding its last part
     out = []
     for ci in range(ncab):
